@@ -104,6 +104,58 @@ def validate_path(chk, cat, ents, nm, s, r, contributed, pats, names, label):
             label, text, 'contributes' if contributed else 'does not contribute', 'does' if listed else 'does not'))
 
 
+def dir_job(chk, item):
+    """the NAME of a directory never matters: an eligible file below a directory whose name is symbolic is analysed exactly like
+    anywhere else (eligibility is a property of the file's own name)"""
+    cat, lengths = item
+    e = chk.engine()
+    pats = [p for p, _ in dl.CATS[cat]['patterns']][:1]
+    names = dict(dl.CATS[cat]['patterns'])
+    for length in lengths:
+        nm, cons = NameStr.fresh('d', length)
+        ents = [('dir', nm, [('file', 'inner.sol', 'in'), ('dir', 'deeper', [('file', 'low.sol', 'low')])]), ('file', 'fixed.sol', 'fix')]
+        tree = dl.Tree(ents)
+        fres = {(f['tag'], pats[0]): 'nonempty' for f in tree.files()}
+        dl.install_stubs(e, cat, tree, fres)
+        old = e.explore
+
+        def explore(run, **kw):
+            kw['base_constraints'] = cons
+            return old(run, **kw)
+        e.explore = explore
+        try:
+            paths = dl.run_dir(e, cat, tree, pats, listing_symbolic=False)
+        finally:
+            e.explore = old
+        label = '%s directory name of %d characters' % (cat, length)
+        for r in paths:
+            if r.outcome == 'unsupported':
+                chk.undecide('%s: %s' % (label, r.value)); continue
+            s = z3.Solver(); s.add(*cons); s.add(*r.pc)
+            if s.check() != z3.sat:
+                continue
+            got = sorted(t for t, p_ in r.extra.get('calls', [])) if r.outcome == 'return' else None
+            ok_ = r.outcome == 'return' and got == ['fix', 'in', 'low'] and len(dl.result_triples(r)) == 3
+            text = nm.render(s.model())
+            if ok_:
+                chk.ok(); continue
+            if '/' in text or text in ('.', '..') or not text.strip():
+                chk.ok(); continue
+            # confirm on a real directory of that name
+            conc = [('dir', text, ents[0][2]), ents[1]]
+            root = os.path.join(chk.native.dir, 'tree%d' % chk.native.n)
+            chk.native.n += 1
+            pn = [names[p] for p in pats]
+            dl.materialise(conc, root, lambda tag: pn)
+            gotn, want, raw = dl.native_union(chk, cat, root, pn)
+            chk.validated += 1
+            if gotn is not None and sorted(gotn) == sorted(want):
+                chk.broken('%s: engine says the files below the directory %r are not all analysed (%r), the real analyze_dir analyses them' % (label, text, got))
+            chk.violation('%s:eligibility:directory-name-matters' % cat, '%s %r: analyze_dir returned %r, the union over the eligible files below it is %r' % (label, text, gotn if gotn is not None else raw, want),
+                          {'job': 'analyze_dir', 'category': cat, 'tree': conc, 'patterns': pn, 'expected': want, 'observed': gotn if gotn is not None else raw})
+        chk.sample({'directory names': label, 'paths': len(paths)}) if length == 6 else None
+
+
 def rename(ents, nm, text):
     out = []
     for e_ in ents:
@@ -166,6 +218,7 @@ def body(chk):
     cases += [(6, 1, False), (7, 2, True), (5, 1, True)]
     chk.bounds = {'file name': 'symbolic, %s characters over the alphabet %r (Z3 decides suffix / containment / case folding for every name)' % (lengths, NAME_ALPHABET),
                   'content': 'valid text or bytes that are not UTF-8', 'depth': '0..2 sub-directories', 'categories': 3,
+                  'directory name': 'symbolic as well (same alphabet, %s characters quick): files below it are analysed whatever it is called' % '5..7',
                   'outside': 'longer names, other alphabets; names that contain `.t.sol` without ending in it are left unconstrained (see DESIGN.md C16)'}
     chk.assumptions = ['fs contracts; read_to_string of non-UTF-8 bytes returns Err', 'to_lowercase modelled per character on the alphabet']
     items = []
@@ -173,6 +226,8 @@ def body(chk):
         for k in range(0, len(cases), 3):
             items.append((cat, cases[k:k + 3]))
     chk.parallel(job, items)
+    dlens = [5, 6, 7] if chk.quick else [1, 2, 3, 4, 5, 6, 7, 8, 9]
+    chk.parallel(dir_job, [(cat, [L]) for cat in dl.CATS for L in dlens])
 
 
 if __name__ == '__main__':
